@@ -12,6 +12,7 @@
 import SuplaVerif.Model.CalCfg
 import SuplaVerif.Model.CfgButton
 import SuplaVerif.Gen.Consts
+import SuplaVerif.Model.Uptime
 
 namespace SuplaVerif.C12
 
@@ -212,6 +213,33 @@ example :
     let c : CbCfg := { typ := 2, onHold := false, onToggle := true, pressUs := 5000000, count := 10, windowUs := 2000000 }
     let clicks (n : Nat) : List CbEv := (List.range n).flatMap (fun k => [.chg true (10000000 + 300000 * k), .chg false (10150000 + 300000 * k)])
     (cbRun c {} (clicks 9)).2 = false ∧ (cbRun c {} (clicks 10)).2 = true := by decide
+
+/-! ### the 2 s toggle window on the wrapping 32-bit microsecond counter -/
+
+/-- the window test of supla_esp_input_legacy_state_change_handling as written: `system_get_time() - last_state_change >= 2 s`
+    on counter readings -/
+def windowOverSub (boot last now window : Nat) : Bool := decide (subw (cnt boot now) (cnt boot last) ≥ window)
+/-- the deadline form `system_get_time() >= last_state_change + 2 s` (sum taken in 32 bits) -/
+def windowOverCmp (boot last now window : Nat) : Bool := decide (cnt boot now ≥ (cnt boot last + window) % W32)
+
+/-- **C12.B3 (the toggle window is elapsed time)** for every boot value of the counter and every two instants less than
+    2^32 us (71.6 min) apart, the firmware's test on counter readings is the model's test on true time: the toggle counter
+    `cbClick` is therefore the same wherever the wrap falls, and C12.B2 applies to the device as it runs. -/
+theorem c12_toggle_window_is_elapsed_time (boot last e window : Nat) (he : e < W32) :
+    windowOverSub boot last (last + e) window = decide ((last + e) - last ≥ window) := by
+  unfold windowOverSub subw cnt W32 at *
+  have : last + e - last = e := by omega
+  rw [this]
+  congr 1
+  apply propext
+  constructor <;> intro h <;> omega
+
+/-- **C12.B3' (the deadline form is not)** nine quick toggles ending 5.5 s before the wrap and one more toggle 8 s later: the
+    deadline form still sees the window open (the tenth "quick" toggle), the subtracting form does not. -/
+theorem c12_window_by_comparison_is_boot_dependent :
+    windowOverCmp (W32 - 10000000) 4500000 12500000 2000000 = false ∧
+    windowOverSub (W32 - 10000000) 4500000 12500000 2000000 = true ∧
+    windowOverCmp 0 4500000 12500000 2000000 = true := by decide
 
 
 /-! ### configuration mode at boot (user_init) -/
